@@ -42,7 +42,11 @@ CHECKS = {
                 "uuids) drawn against the evolving reference state; every transaction is executed on the in-memory database "
                 "(decoded from JSON text exactly as the server decodes a request) and on refdb, an independent RFC 7047 "
                 "interpreter; per-operation results, accept/reject decision, the complete database contents and the reported "
-                "update (pre-state + update2 difference = post-state) are compared after every step. evaluations = histories. "
+                "update (pre-state + update2 difference = post-state) are compared after every step; every second transaction goes through "
+                "OvsdbServer.Transact itself, and after every transaction each stored row must be found through each schema index. TestC03API "
+                "(server + connected client): operations built through the model API - Where/WhereAll/WhereAny/WhereCache(...).Delete(), "
+                ".Update(model, 1-2 drawn columns), .Mutate(model, 1-3 drawn mutations, repeats included) - executed through the client must have "
+                "the effect refdb computes for the operations asked for. evaluations = histories / API cases. "
                 "Non-trivial = history containing a transaction where >=2 operations touch the same table, or a condition/"
                 "mutation on a set or map column; distinct = hash of (schema column kinds, operation/condition/mutator sequence).",
         "assumptions": COMMON_ASSUMPTIONS + [
@@ -96,7 +100,9 @@ CHECKS = {
     "C06": {
         "rule": "index-heavy schemas (single and two-column unique indexes over scalar columns of every atomic type) and histories "
                 "biased to swaps, 3-rotations, delete+insert of the same value (both orders), hand-overs, genuine duplicates by insert "
-                "and by update, two inserts of one value with one deleted again, GC of indexed rows; after every step a full scan for "
+                "and by update, two inserts of one value with one deleted again, GC of indexed rows, and replace-child transactions (a referenced "
+                "row X of an indexed table is read or rewritten unchanged, a new row takes over X's index values, the referrer is pointed at the "
+                "new row so that X is garbage collected); after every step a full scan for "
                 "duplicate index tuples, and accept/reject + 'constraint violation' must agree with refdb's final-state scan. "
                 "Non-trivial = transaction with a transient duplicate that is accepted or a final duplicate that is rejected; "
                 "distinct = hash of (schema kinds, operation sequence).",
@@ -144,7 +150,9 @@ CHECKS = {
                 "explicit and server-assigned uuids, and sometimes two inserts claim one name. refdb binds each name to the uuid the "
                 "implementation reports for the insert; after every commit all stored values must equal the model's (every use resolved "
                 "to the row actually inserted), no stored uuid-typed value may still be a name, string columns holding the same text "
-                "are untouched, clashing names are rejected. Non-trivial = a name used in a collection, condition or mutation "
+                "are untouched, clashing names are rejected. TestC15API: Create() of 2-6 models in one call whose _uuid fields hold a symbolic "
+                "name, a real uuid or nothing, with references (by name or uuid) between them, in drawn order: every model becomes its own row, "
+                "names denote the rows inserted under them, real uuids are kept. Non-trivial = a name used in a collection, condition or mutation "
                 "position or before its definition; distinct = hash of (schema kinds, operation sequence).",
         "assumptions": COMMON_ASSUMPTIONS + [
             "a name is only offered for reference columns of the table of its insert (known finding cross-table-uuid); a set never "
@@ -161,7 +169,7 @@ CHECKS = {
     "C19": {
         "rule": "three generators. TestC19Decode: for each of 16 wire types a valid encoding is generated structurally and 1-3 structural "
                 "corruptions are applied (replace a node by one of ~70 hostile fragments, drop, retype, duplicate, swap set/map/uuid tags, "
-                "extreme numbers), or the encoding of another type / a hostile constant is fed; json.Unmarshal (and re-encoding of "
+                "extreme numbers, numbers that truncate to zero, an operation renamed into another kind with its members kept), or the encoding of another type / a hostile constant is fed; json.Unmarshal (and re-encoding of "
                 "whatever decoded) must return under recover(). TestC19Txn: valid generated transactions against a populated database "
                 "are corrupted the same way at JSON level (plus ~45 incomplete/degenerate operations spliced in), decoded and executed: "
                 "no panic, a failed request leaves every table unchanged, Commit never fails after Transact succeeded, a select on "
@@ -414,7 +422,9 @@ CHECKS = {
                 "database's row, clustered, with a leader flag and server id, inserted in drawn order) and holding different contents; a leader-only client with "
                 "the endpoints in drawn order and one monitor; 1-3 leadership changes (to another member or to nobody; the resignation and the announcement "
                 "in drawn order, with a commit at the new leader): within 20 s the client must be attached to the member that reports leadership with its "
-                "cache equal to that member's database, or to nobody while nobody leads, and must stay so for 50 ms. Non-trivial = cut after the 6th message (monitor set-up begun) "
+                "cache equal to that member's database, or to nobody while nobody leads, and must stay so for 50 ms. TestC16Inconsistent: the proxy "
+                "delivers insert-only notifications 2-4 times in a row (the client cannot apply the copies): it must drop the connection, reconnect, "
+                "re-establish 1-3 monitors and converge within 20 s. Non-trivial = cut after the 6th message (monitor set-up begun) "
                 "resp. a parked window with foreign commits inside; distinct = (scenario, direction, k, mode) resp. (monitors, k, foreign kinds).",
         "assumptions": COMMON_ASSUMPTIONS + [
             "enumerated scenarios run without the inactivity probe so that the fault-free message sequence is the same in every run up to the cut",
